@@ -48,7 +48,7 @@ def circuits(ctx):
         r = ctx.rng("C03g3", j)
         c = gen.rand_circuit(r, n_in=r.randint(1, 4), n_gates=r.randint(1, 9), max_fanin=4, consts=0.3, xconst=0.15, out_is_input=0.3, loaded_in_out=0.15)
         kind = j % 4
-        if kind == 1:
+        if kind == 1 or (kind == 2 and j % 8 == 2):
             gen.add_flops(r, c, r.randint(1, 2))
             if r.random() < 0.5:   # an unconnected output pin
                 import circuitgraph as cg
@@ -57,7 +57,7 @@ def circuits(ctx):
                 for k in c.blackboxes:
                     c.blackboxes[k] = c.blackboxes["ff0"]
                     c.graph.add_node(k + ".qn", type="bb_output", output=False)
-        elif kind == 2:
+        if kind == 2:
             nx.relabel_nodes(c.graph, {k: v for k, v in ESC.items() if k in c.graph}, copy=False)
         elif kind == 3:
             nx.relabel_nodes(c.graph, {k: v for k, v in GK.items() if k in c.graph}, copy=False)
@@ -76,7 +76,7 @@ def cases(ctx):
 def run_case(case, ctx):
     import circuitgraph as cg
 
-    c = build(case["c"])
+    c = build(case["c"], case.get("ord"))
     bbs = list({id(b): b for b in c.blackboxes.values()}.values())
     exc, c2 = "", None
     try:
